@@ -129,6 +129,27 @@ Section D.
     | _ => (eval h dom c b ywf, s)      (* comparisons, mappings in condition position; for_all: as the P-model *)
     end.
 
+  (* the query evaluated from an arbitrary de-duplication state (what an earlier evaluation might have left behind) *)
+  Definition run_queryD_from (s : dst) (sel : list term) (c : option cond) : list (list val) :=
+    let rows := match c with
+                | Some c' => map fst (filter (fun p => negb (snd p)) (fst (evalD c' (KTop (req_top sel)) [] false s)))
+                | None => [[]]
+                end in
+    flat_map (fun b => map (row_of h dom sel) (bind_selected h dom sel b)) rows.
+
+  (* a history of evaluations of ONE query object: each is consumed completely (None) or abandoned / aborted after n results (Some n).
+     [leftover i] is whatever state the i-th evaluation leaves in the operators' seen sets when it ends; An.evaluate / The.evaluate
+     reset it in a finally clause iff Generated.evaluation_resets_dedup_state *)
+  Fixpoint history_rows (leftover : nat -> dst) (sel : list term) (c : option cond) (steps : list (option nat)) (i : nat) (s : dst)
+    : list (list (list val)) :=
+    match steps with
+    | [] => []
+    | k :: rest =>
+        let rows := run_queryD_from s sel c in
+        (match k with None => rows | Some n => firstn n rows end)
+          :: history_rows leftover sel c rest (S i) (if evaluation_resets_dedup_state then DL else leftover i)
+    end.
+
   Definition run_queryD (sel : list term) (c : option cond) : list (list val) :=
     let rows := match c with
                 | Some c' => map fst (filter (fun p => negb (snd p)) (fst (evalD c' (KTop (req_top sel)) [] false DL)))
